@@ -23,8 +23,8 @@ func smugBody(n int) []byte {
 func init() {
 	Register(&Prop{
 		ID: "C02",
-		Rule: "pipelines of 1..4 requests whose bodies (Content-Length or chunked; sizes around 0, the 8 KiB prefetch and MaxRequestBodySize) consist of well-formed 'GET /smuggled' requests, " +
-			"handlers reading none / k / all of the body (streaming on and off) and ending normally, with an error status, or through TimeoutError / TimeoutErrorWithResponse, Expect: 100-continue accepted or rejected by ContinueHandler or ExpectHandler, random arrival chunking, followed by a sentinel request; " +
+		Rule: "pipelines of 1..4 requests whose bodies (Content-Length, chunked, or chunked with a malformed chunk terminator; sizes around 0, the 8 KiB prefetch and MaxRequestBodySize) consist of well-formed 'GET /smuggled' requests, " +
+			"handlers reading none / k / all of the body (streaming on and off), taking it through Request.Body(), dropping it with ResetBody / SetBody, and ending normally, with an error status, or through TimeoutError / TimeoutErrorWithResponse, Expect: 100-continue accepted or rejected by ContinueHandler or ExpectHandler, random arrival chunking, followed by a sentinel request; " +
 			"monitor: the dispatched targets are a prefix of the planned ones (a body byte parsed as a request shows up as /smuggled or as garbage); non-trivial = some request carries a body; distinct = distinct input",
 		Parallel: true,
 		Build: func(kind string, a [][]byte) *Case {
@@ -34,7 +34,11 @@ func init() {
 			var planned []string
 			var bodies [][]byte
 			hasBody := false
+			badAt := -1 // index of the first request whose chunked framing is malformed: nothing may be dispatched after it
 			for i := 1; i < len(a)-1; i++ {
+				if badAt >= 0 {
+					break
+				}
 				f := strings.Split(string(a[i]), "|")
 				size, _ := strconv.Atoi(f[1])
 				body := smugBody(size)
@@ -51,23 +55,34 @@ func init() {
 				if size > 0 {
 					hasBody = true
 				}
-				if f[2] == "ch" {
+				if f[2] == "ch" || f[2] == "chx" {
 					stream.WriteString("Transfer-Encoding: chunked\r\n\r\n")
 					rest := body
+					first := true
 					for len(rest) > 0 {
 						n := min(len(rest), 1+len(rest)/2)
 						fmt.Fprintf(&stream, "%x\r\n", n)
 						stream.Write(rest[:n])
-						stream.WriteString("\r\n")
+						if first && f[2] == "chx" {
+							stream.WriteString("X") // malformed chunk terminator: the framing is broken from here on
+						} else {
+							stream.WriteString("\r\n")
+						}
+						first = false
 						rest = rest[n:]
 					}
 					stream.WriteString("0\r\n\r\n")
+					if f[2] == "chx" && size > 0 {
+						badAt = i - 1
+					}
 				} else {
 					fmt.Fprintf(&stream, "Content-Length: %d\r\n\r\n", size)
 					stream.Write(body)
 				}
 			}
-			planned = append(planned, "/sentinel")
+			if badAt < 0 {
+				planned = append(planned, "/sentinel")
+			}
 			stream.WriteString("GET /sentinel HTTP/1.1\r\nHost: h\r\n\r\n")
 			var cuts []int
 			for _, f := range strings.Fields(string(a[len(a)-1])) {
@@ -97,7 +112,7 @@ func init() {
 							return Verdict{VSpec, key, fmt.Sprintf("dispatch #%d is %q. %s", k, u, desc)}
 						}
 						// what the handler read must be a prefix of the real body
-						if k < len(bodies) && !bytes.HasPrefix(bodies[k], res.Dispatches[k].Body) {
+						if k < len(bodies) && res.Dispatches[k].BodyErr != "bodycall" && !bytes.HasPrefix(bodies[k], res.Dispatches[k].Body) {
 							return Verdict{VSpec, "body-content-differs", fmt.Sprintf("dispatch #%d read %q... which is not a prefix of its body. %s", k, trunc(res.Dispatches[k].Body, 80), desc)}
 						}
 					}
@@ -122,6 +137,9 @@ func init() {
 					fr := "cl"
 					if r.Chance(35) {
 						fr = "ch"
+						if r.Chance(12) {
+							fr = "chx"
+						}
 					}
 					exp := "0"
 					if strings.Contains(cfg, "cont=") && r.Chance(70) || r.Chance(5) {
@@ -129,7 +147,7 @@ func init() {
 					}
 					end := ""
 					if r.Chance(20) {
-						end = r.Pick([]string{"te=1", "ter=0", "te=1", "sc=503"})
+						end = r.Pick([]string{"te=1", "ter=0", "te=1", "sc=503", "bc=1", "bc=1", "rsb=1", "rsb=1", "sb=1"})
 					}
 					args = append(args, B(fmt.Sprintf("%s|%d|%s|%s|%s|%s", method, sizes[r.Intn(len(sizes))], fr, rbs[r.Intn(len(rbs))], exp, end)))
 				}
